@@ -13,7 +13,8 @@ EXPLANATION = ("Theorems in coq/Props/C01.v are about every interleaving of the 
                "buffer size. Each run of the check executes the REAL Split / ProcessParallel / ParallelForEach / Worker / Map / ParallelBuffer / "
                "Buffer / MergeIterators / GenerateParallel (generator ending with io.EOF / an error wrapping io.EOF / a real error = aborted run; free "
                "schedule and a driver-controlled schedule in which the call producing the last value returns only after another worker's call "
-               "reported the end) / concurrent ReadOne on seeded inputs with Gosched/sleep jitter and varied GOMAXPROCS, "
+               "reported the end) / concurrent ReadOne / 2-8 fan-out stages (ParallelForEach pools, Split, Map) draining ONE channel-backed iterator of 10^5+ distinct values "
+               "on seeded inputs with Gosched/sleep jitter and varied GOMAXPROCS, "
                "applies the multiset (and order) oracle, and hands every observed outcome to Coq, where it must be an outcome the model allows "
                "(a permutation of the input; the input itself for Buffer / one worker) and where the model network of the same construct is "
                "executed on the same input.")
@@ -29,7 +30,10 @@ LEVEL_TEXT = ("Machine-checked Coq theorems over GoLite networks of the parallel
               "C01_generate_eof_no_drop / C01_generate_eof_cancels_nothing - GenerateParallel (worker = explicit ctx.Err() test, generator call, send; "
               "any workers, input, schedule) whose generator ends with the end-of-stream signal (io.EOF, bare or wrapped) cancels nothing while a "
               "worker is running and never drops an item in an un-aborted run; C01_generate_failure_drops_in_flight - the contrast: treating the "
-              "end as a failure (cancel-on-failure edge) drops a value that is generated and not yet sent.")
+              "end as a failure (cancel-on-failure edge) drops a value that is generated and not yet sent; C01_shared_input_conservation / "
+              "C01_atomic_reads_exactly_once / C01_next_value_hand_off_refuted - several fan-out stages over one concurrency-safe input are concurrent "
+              "callers of the atomic ReadOne (conservation for any number of them); reading with Next;Value through the shared value field loses one "
+              "item and duplicates another with two readers.")
 LEVEL_NOTE = ("Partial in DESIGN's sense: channel hand-off atomicity, WaitGroup, context and goroutine exit are model primitives. "
               "C01_complete (un-aborted terminated run delivers a permutation) is proved in full for the single-pump constructs and stated "
               "(C01_complete_statement) for the multi-worker ones, where it is reduced to 'no explicit drop happened' (C01_complete_partial) and "
